@@ -118,6 +118,11 @@ func boundedProgram(fam string, n int64) string {
 		return "a=[]\nfor true {a=a+1}"
 	case "grow-nest":
 		return "a=[1]\nfor true {a=[a,a]}"
+	// --- values with shared structure: n doublings give a DAG of n nodes that unfolds to 2^n leaves
+	case "dag-eq":
+		return "a=[1]\nfor " + intLit(n) + " {a=[a,a]}\nb=(a==a)\nb"
+	case "dag-print":
+		return "a=[1]\nfor " + intLit(n) + " {a=[a,a]}\nprintln(a)\n1"
 	// --- deeply nested source text
 	case "nest-paren":
 		return rep("(") + "1" + rep(")")
@@ -403,6 +408,9 @@ func boundedGen(tier string, r *rng, emit func(string)) {
 				add(f, 30000+int64(r.intn(100000)), pickD(), pickT())
 			}
 		}
+		// shared structure, small enough to be traversed in time (larger ones are the recorded finding)
+		add("dag-eq", int64(8+r.intn(8)), pickD(), 1000)
+		add("dag-print", int64(8+r.intn(8)), pickD(), 1000)
 		// waiting
 		add("sleep", 10, pickD(), 100)
 		add("sleep", 10, 0, deadlines[i%len(deadlines)])
